@@ -576,6 +576,7 @@ type recvImpls struct {
 	handle          []*ssa.Function
 	pAccept, pDeq   []*ssa.Function
 	pClose          []*ssa.Function
+	pCancel         []*ssa.Function
 }
 
 func (c *Ctx) receivers() *recvImpls {
@@ -636,6 +637,8 @@ func (c *Ctx) receivers() *recvImpls {
 				r.pDeq = append(r.pDeq, fn)
 			case w.mName("close"):
 				r.pClose = append(r.pClose, fn)
+			case w.mName("cancel"):
+				r.pCancel = append(r.pCancel, fn)
 			}
 		}
 	}
